@@ -1,7 +1,7 @@
 """Per-property check definitions: which model families are run and how their findings are attributed."""
 import json, os
 from . import common
-from .cgt import cgt_family, law_family, report_family, calendar_family, fx_family, combine, fam_list
+from .cgt import cgt_family, law_family, report_family, calendar_family, fx_family, dsl_family, combine, fam_list
 
 
 def c01(tier, seed):
@@ -96,6 +96,25 @@ def c08(tier, seed):
                    assumptions=['bundled rates are read independently from the XML text under crates/cgt-money/resources/rates'])
 
 
+def c13(tier, seed):
+    fams = [dsl_family('styles', 1), dsl_family('corrupt', 1)] + ([dsl_family('styles', 2)] if tier == 'thorough' else [])
+    return combine(fams, ['styled', 'rejected'],
+                   'every command with every combination of optional clause and currency (444 transactions, every spelling with '
+                   'GBP left out / a zero clause spelt out) rendered in a three-line file under every lexical style varied alone '
+                   '(thorough: all pairs): keyword/currency/ticker case, gaps, trailing comments (spaced, tight, containing '
+                   'keywords), LF/CRLF/CR, missing final newline, blank / comment / spaces-only filler lines; plus every single-token '
+                   'corruption (delete, duplicate, junk, swap) with the verdict of the TLA+ recogniser; non-trivial = styled '
+                   'texts + rejected corruptions (error position must lie inside the offending line)')
+
+
+def c14(tier, seed):
+    return combine([dsl_family('roundtrip', 1)], 'nontrivial',
+                   'every generated transaction written by the real DSL writer (byte-compared with the specification\'s Write), '
+                   'parsed back, re-written (idempotence), and round-tripped through the tool\'s JSON; TLC checks RoundTrips and '
+                   'Idempotent on the specification; non-trivial = transactions with money fields',
+                   assumptions=['exactness of rust_decimal Display/FromStr is observed, not modelled (decimals are opaque literals in the spec)'])
+
+
 def c11(tier, seed):
     return combine(fam_list(tier, ['events_q', 'events_split_q'], ['events_t', 'events_split_t']), 'with_events',
                    'cell ledgers with a capital return / accumulation cell at every position; TLC judges the observed '
@@ -104,7 +123,7 @@ def c11(tier, seed):
                    'non-trivial = ledgers with a cost event')
 
 
-PROPS = {'C08': c08, 'C04': c04, 'C07': c07, 'C01': c01, 'C02': c02, 'C03': c03, 'C05': c05, 'C06': c06, 'C09': c09, 'C10': c10, 'C11': c11, 'C12': c12}
+PROPS = {'C13': c13, 'C14': c14, 'C08': c08, 'C04': c04, 'C07': c07, 'C01': c01, 'C02': c02, 'C03': c03, 'C05': c05, 'C06': c06, 'C09': c09, 'C10': c10, 'C11': c11, 'C12': c12}
 
 
 def replay(prop, path):
